@@ -1058,6 +1058,14 @@ class Interp:
         prog = self.prog
         if ci.trait is not None or (ci.self_ty is not None and ci.raw.startswith('<')):
             st = _last_seg(ci.self_ty)
+            if args and ci.trait in ('Iterator', 'DoubleEndedIterator', 'IntoIterator'):
+                # a harness stub handed out a model iterator where the crate's own iterator type is declared
+                rv = args[0]
+                for _ in range(3):
+                    if isinstance(rv, Ref):
+                        rv = self.load(rv)
+                if isinstance(rv, IterVal):
+                    return None
             f = prog.find_method(st, ci.method, ci.trait)
             if f is not None:
                 return f
